@@ -347,6 +347,12 @@ var targetedC20 = []struct {
 	{"methodls", true, []string{"(methodls (snoopy))", "(fieldls (snoopy))", "(methodls (weather))"}},
 	{"json-roundtrip", false, []string{"(def h (hash a:1 b:\"two\" c:[1 2 3] d:(hash x:1 y:2 z:3 w:4 v:5 u:6 t:7 s:8 r:9)))", "(json h)", "(str (unjson (json h)))", "(str (unmsgpack (msgpack h)))"}},
 	{"json-wide", false, []string{"(def h (hash k1:1 k2:2 k3:3 k4:4 k5:5 k6:6 k7:7 k8:8 k9:9 k10:10 k11:11 k12:12))", "(str (unjson (json h)))", "(keys (unjson (json h)))"}},
+	{"json-foreign", false, []string{`(def fj (unjson (raw "{\"kiwi\":1, \"apple\":2, \"mango\":3, \"fig\":4, \"lime\":5, \"pear\":6, \"plum\":7, \"date\":8, \"yuzu\":9, \"nut\":10, \"oat\":11}")))`, "(str fj)", "(keys fj)", "(json fj)", "(hpair fj 0)"}},
+	{"json-foreign-nested", false, []string{`(def fn2 (unjson (raw "{\"outer\":{\"k1\":1,\"k2\":2,\"k3\":3,\"k4\":4,\"k5\":5,\"k6\":6,\"k7\":7,\"k8\":8,\"k9\":9,\"k10\":10}, \"list\":[{\"a\":1,\"b\":2,\"c\":3,\"d\":4,\"e\":5,\"f\":6,\"g\":7,\"h\":8,\"i\":9}], \"z\":0, \"y\":1, \"x\":2, \"w\":3, \"v\":4, \"u\":5, \"t\":6}")))`, "(str fn2)", "(str (unmsgpack (msgpack fn2)))"}},
+	{"msgpack-foreign", false, []string{`(def fm (unmsgpack (msgpack (unjson (raw "{\"q1\":1,\"q2\":2,\"q3\":3,\"q4\":4,\"q5\":5,\"q6\":6,\"q7\":7,\"q8\":8,\"q9\":9,\"q10\":10}")))))`, "(str fm)", "(keys fm)"}},
+	{"hash-wide", false, []string{"(def hw (hash))", "(for [(def i 0) (< i 20) (def i (+ i 1))] (hset hw (str2sym (concat \"k\" (str i))) i))", "(str hw)", "(keys hw)", "(json hw)", "(str (unjson (json hw)))"}},
+	{"macro-names", false, []string{"(defmac sw [a b] ^(let [tmp ~a] (set ~a ~b) (set ~b tmp)))", "(def x 1) (def y 2)", "(sw x y)", "(str (list x y))", "(str (macexpand (sw x y)))"}},
+	{"gensym-visible", false, []string{"(str (gensym))", "(str (gensym \"pfx\"))", "(defmac gm [] (let [g (gensym)] ^(quote ~g)))", "(str (gm))"}},
 	{"str-scopes", false, []string{"(def a 1) (def b 2) (def c 3)", "(let [x 1 y 2 z 3] (str (hash p:x q:y r:z)))"}},
 	{"package-print", false, []string{"(def p (package \"pp\" { A := 1; B := 2; C := 3; D := 4 }))", "(str p)", "p.A"}},
 	{"typelist", false, []string{"(len (typelist))", "(str (typelist))"}},
